@@ -132,6 +132,10 @@ func (b *Builder) Insert(key []byte, value []byte) error {
 	if len(key) > maxKeySize {
 		return fmt.Errorf("key too long: %d bytes (max %d)", len(key), maxKeySize)
 	}
+	if uint64(len(value)) > b.Header.ValueSize {
+		// a longer value would be cut to the index's value size (shorter ones are zero-padded)
+		return fmt.Errorf("value too long: %d bytes (the index stores values of %d bytes)", len(value), b.Header.ValueSize)
+	}
 	return b.buckets[b.Header.BucketHash(key)].writeTuple(key, value)
 }
 
